@@ -259,6 +259,23 @@ fn replay(path: &str, iface: &Iface) -> ! {
     };
     let oracle = j["features"]["oracle"].as_str().unwrap_or("");
     let mut bad = [false; 2];
+    if w["mode"] == "builtin" {
+        use mc::ifaces::Qi;
+        use microscpi::ErrorQueue;
+        for r in 0..2 {
+            let mut q: Qi<4> = Qi::new();
+            let mut wr = mc::wr::RecW::unbounded();
+            mc::runx::run_on(&mut q, b"ZZ\n", &mut wr, Pattern::NONE);
+            let mut wr = mc::wr::RecW::unbounded();
+            mc::runx::run_on(&mut q, &input, &mut wr, Pattern::NONE);
+            let outb = mc::log::with(|l| l.concat(mc::log::K::WBytes));
+            let after = q.errors.error_count();
+            println!("round {r}: run(\"{}\") after one queued error: {after} errors queued, output \"{}\"", show(&input), show(&outb));
+            bad[r] = !(after == 2 && outb.is_empty());
+        }
+        println!("{}", if bad[0] && bad[1] { "REPRODUCED" } else { "NOT-REPRODUCED" });
+        std::process::exit(if bad[0] && bad[1] { 1 } else { 0 });
+    }
     for r in 0..2 {
         let (_, obs) = exec_mode(mode, &input);
         println!("round {r}: {:?} on \"{}\": {}", mode, show(&input), obs.show());
@@ -302,6 +319,51 @@ fn main() {
     let mut st0 = St::default();
     for m in alpha.iter_mut() {
         check_alone(&mut st0, m);
+    }
+    // the built-in queries (StandardCommands / ErrorCommands) are dispatched by generated code
+    // of their own: faulty units addressed to them, alone, with a queue that already holds one error
+    let mut builtin_cases = 0u64;
+    {
+        use mc::ifaces::Qi;
+        use mc::runx::run_on;
+        use mc::wr::RecW;
+        use microscpi::ErrorQueue;
+        let faulty: &[(&[u8], &str)] = &[
+            (b"SYST:ERR? 1\n", "Arity"),
+            (b"SYST:ERR:NEXT? 1,2\n", "Arity"),
+            (b"SYST:ERR:COUN? 0\n", "Arity"),
+            (b"SYST:VERS? 1999\n", "Arity"),
+            (b"SYST:VERS? 'x'\n", "Arity"),
+            (b"SYST:ERR\n", "Undefined"),
+            (b"SYST:ERR:COUN\n", "Undefined"),
+            (b"SYST:VERS\n", "Undefined"),
+            (b"SYST:ERR:NEXT:X?\n", "Undefined"),
+            (b"SYST:ERR? @\n", "Syntax"),
+        ];
+        for (msg, kind) in faulty {
+            builtin_cases += 1;
+            let mut q: Qi<4> = Qi::new();
+            let mut w = RecW::unbounded();
+            run_on(&mut q, b"ZZ\n", &mut w, Pattern::NONE);
+            let before = q.errors.error_count();
+            let mut w = RecW::unbounded();
+            let o = run_on(&mut q, msg, &mut w, Pattern::NONE);
+            st0.execs += 2;
+            let outb = mc::log::with(|l| l.concat(mc::log::K::WBytes));
+            let after = q.errors.error_count();
+            if o.end == End::Returned && !(before == 1 && after == 2 && outb.is_empty()) {
+                let feat = vec![("fault_kind", kind.to_string()), ("target", "built-in-command".to_string())];
+                st0.groups.add("alone", &feat, (msg.len(), msg), || {
+                    (
+                        json!({"mode": "builtin", "input": hex(msg)}),
+                        format!(
+                            "run(\"{}\") on an interface with the standard commands, queue holding one error: {} errors queued afterwards (2 expected: exactly one new error, nothing read), output \"{}\" (none expected)",
+                            show(msg), after, show(&outb)
+                        ),
+                    )
+                });
+            }
+        }
     }
     let depth = args.get_usize("depth", if thorough { 4 } else { 3 });
     let longest = alpha.iter().map(|m| m.bytes.len()).max().unwrap();
@@ -356,7 +418,7 @@ fn main() {
     out.cov(
         "bounds",
         json!({"alphabet_messages": na, "alphabet": alpha.iter().map(|m| show(&m.bytes)).collect::<Vec<_>>(),
-               "fault_kinds": ["Syntax", "Undefined", "Arity", "Unconvertible", "HandlerError"], "fault_positions": "alone, 1st, 2nd, 3rd unit of a 3-unit message",
+               "fault_kinds": ["Syntax", "Undefined", "Arity", "Unconvertible", "HandlerError"], "fault_positions": "alone, 1st, 2nd, 3rd unit of a 3-unit message", "faulty_units_addressed_to_built_in_commands": builtin_cases,
                "max_history_length": depth, "delivery_modes": modes.iter().map(|m| mode_json(*m)).collect::<Vec<_>>()}),
     );
     out.cov("expected_error_count_histogram", json!(t.err_hist));
